@@ -135,7 +135,12 @@ def run(ctx):
     for d in docs:
         use = singles + rng.sample(pairs, 40 if q else 600)
         for (fs, pred) in use:
-            jobs.append((k, d, fs, pred, ctx.seed * 5 + k, ctx.scratch, (k % 7 == 0) and not any(f["kind"].startswith("trunc") for f in fs)))
+            nested = (k % 7 == 0) and not any(f["kind"].startswith("trunc") for f in fs)
+            if any(f["kind"] == "nested-index-damaged" for f in fs):
+                if any(f["kind"].startswith("trunc") or f["kind"] in ("missing", "wrong-suffix") for f in fs):
+                    continue          # the inner zip only exists in the nested form; outer truncations are separate cases
+                nested = True
+            jobs.append((k, d, fs, pred, ctx.seed * 5 + k, ctx.scratch, nested))
             k += 1
         for _ in range(40 if q else 300):
             jobs.append((k, d, [{"kind": "rnd-truncate", "at": 0}], "", ctx.seed * 5 + k, ctx.scratch, False))
